@@ -25,7 +25,7 @@ def r1_undo_width(ctx, fields, setters, pairing):
     ctx.rule(rid, "the setter of every undo field (read by unmake) can write every bit of that field: may(E) ⊇ mask (bit-level may-analysis with integer widths)", floor=2)
     used = MF.getter_callers(ctx, fields, BB + "unmake")
     if used is None:
-        ctx.lost(rid, BB + "unmake")
+        ctx.lost(rid, BB + "unmake", missing=True)
         return
     inv = {}
     for s, fld in pairing.items():
